@@ -75,7 +75,7 @@ var c34EventKinds = []string{
 
 func c34PoolSizes(quick bool) []int {
 	// the last entries are "big" (beyond 512 KiB): drawn rarely, they exist for 1 MiB crossings
-	s := []int{0, 5, 4096, 12288, 20480, 40000, 65536, 100000, 131072, 131072 + 10093, 200000, 262144, 300000, 1<<20 + 200000}
+	s := []int{0, 5, 4096, 8192, 12288, 20480, 32768, 40000, 65536, 100000, 131072 + 10093, 200000, 300000, 1<<20 + 200000}
 	if !quick {
 		s = append(s, 1, 4095, 8192, 36864, 81920, 180224, 524288, 786433, 917504, 1<<20-1, 1<<20+1, 1572864, 2<<20, 2400000, 3<<20+4097, 4<<20)
 	}
@@ -90,7 +90,7 @@ func genC34Case(c *mon.Ctx, i int, pool []*cdnFile, adversarial bool) c34Case {
 	for {
 		cs.File = r.IntN(len(pool))
 		n := len(pool[cs.File].f.data)
-		if n > 512<<10 && r.IntN(16) != 0 {
+		if (n > 512<<10 && r.IntN(24) != 0) || (n > 150000 && r.IntN(4) != 0) {
 			continue
 		}
 		if adversarial && n < 4096 && r.IntN(8) != 0 {
@@ -196,7 +196,7 @@ type c34Stats struct {
 func runC34(c *mon.Ctx) {
 	c.Rule("plan arm: VerifBuildCDNRequestPlan over the complete grid offset∈4KiB·[0,600) × limit∈4KiB·[1,300] (180000 pairs, exhaustive) checked for 4 KiB alignment, limit | 1 MiB, no 1 MiB crossing and exact in-order tiling; " +
 		"the same per-request rules on every request the harness CDN receives, and exact tiling on single-thread runs whose request sequence is determined. " +
-		"download arm: genuine pool files (14 sizes 0..1.2 MB, thorough 30 sizes ..4 MiB; files above 512 KiB drawn rarely) with hash windows (uniform 128K / uniform small / random 4K..128K / chunk-aligned; nominal or actual tail limit; 1..64 hashes per answer; empty or repeated answer past EOF), " +
+		"download arm: genuine pool files (14 sizes 0..1.2 MB, thorough 30 sizes ..4 MiB; files above 150 KB drawn at 1/4, above 512 KiB at 1/24 of the rate: bytes are what costs under the race detector) with hash windows (uniform 128K / uniform small / random 4K..128K / chunk-aligned; nominal or actual tail limit; 1..64 hashes per answer; empty or repeated answer past EOF), " +
 		"modes inline (AllowCDN default), verify-cdn (WithVerify(true) on a redirected file) and verify-master (WithVerify(true), no CDN), Stream/Parallel 1..4 threads, part sizes 4K..1M incl. non-divisors of 1 MiB; " +
 		"CDN ciphertext from the reference AES-CTR model; honest arm with token-invalid (new token / new key / fallback to master), reupload-needed, fingerprint errors, timeouts, late redirect; " +
 		"adversarial arm: 16 strategies (bit flips, window swaps, data of another offset, truncation mid-window / on 4 KiB / exactly on a hash-window boundary, empty, consistent EOF lie, extension, other self-consistent file), each aimed at each chunk index. " +
@@ -211,7 +211,7 @@ func runC34(c *mon.Ctx) {
 	for i, s := range c34PoolSizes(quick) {
 		pool = append(pool, newCDNFile(c.Seed*7919+uint64(i)*104729+1, s))
 	}
-	nHonest, nAdv := devN(c.N(200, 6000)), devN(c.N(640, 24000))
+	nHonest, nAdv := devN(c.N(160, 6000)), devN(c.N(480, 24000))
 	st := &c34Stats{events: map[string]int64{}, byMode: map[string]int64{}, rejectedBy: map[string]int64{}, errClasses: map[string]int64{}}
 	type job struct {
 		i   int
